@@ -19,7 +19,7 @@ Theorem C15_tie_sync_window : forall (p : params) (epoch cur : N),
   nu64 (fork p) -> nu64 epoch -> nu64 cur ->
   let w := window_of true p epoch cur in
   controller_syncWindow (Z.of_N (epp p)) (Z.of_N (fork p)) (Z.of_N epoch)
-                        (Z.of_N (epoch_of_slot p cur)) (Z.of_N (spe p)) (Z.of_N cur)
+                        (Z.of_N (epoch_of_slot p cur)) (Z.of_N cur) (Z.of_N (spe p))
   = (Z.of_N (w_first_epoch w), Z.of_N (w_first w), Z.of_N (w_last w)).
 Proof. exact tie_sync_window. Qed.
 Print Assumptions C15_tie_sync_window.
@@ -44,6 +44,6 @@ Print Assumptions C15_tie_is_aggregator.
 (* sanity: period of 256 epochs of 32 slots, started in epoch 0 at slot 0: first slot 0 (no wrap),
    last slot 256*32-2 *)
 Example C15_tie_example :
-  controller_syncWindow 256 0 0 0 32 0 = (0, 0, 8190) /\
-  controller_syncWindow 256 0 300 290 32 9300 = (290, 9300, 16382).
+  controller_syncWindow 256 0 0 0 0 32 = (0, 0, 8190) /\
+  controller_syncWindow 256 0 300 290 9300 32 = (290, 9300, 16382).
 Proof. vm_compute. split; reflexivity. Qed.
